@@ -3,6 +3,7 @@
 #define CONTRACT_DECLS_instant
 #include "contracts_instant.h"
 int verif_diff_days, verif_diff_ms;
+int verif_add_dd0, verif_add_msd0, verif_add_dd;
 #include "instant.c"
 
 /* the spec's own sanity: leap rule and day numbering (supporting lemma) */
@@ -173,4 +174,64 @@ void h_C08_order(void)
 		SENTINEL("order allday");
 	}
 	SENTINEL("order");
+}
+
+/* ------------------------------------------------------------------ add
+ * Pair form (R1): with (dd0, msd0) the quotient and remainder of add.d by one
+ * day AS COMPUTED by the code (ghost export; that add.d == dd0*86400000+msd0
+ * is C's division identity, which no installed back end can exploit), the
+ * result denotes the time point (dayno(bas)+dd0, msod(bas)+msd0), carried
+ * into range.  All valid bases, all durations of +-80000 days. */
+#define ADD_LIM	(80000LL * 86400000LL)
+/* day number under the every-4th-year rule: equals the Gregorian day number
+ * on 1901..2099 (C08.spec) and is what the month walk is inductive over */
+void h_C08_add_walk(void)
+{
+	IN_INSTANT_FIELDS(bas);
+	IN_RANGE(int64_t, dur, -ADD_LIM, ADD_LIM);
+	ASSUME(I_VALID(bas));
+	echs_idiff_t add = {dur};
+	echs_instant_t r = echs_instant_add(bas, add);
+	/* date part, relative to the day count the code arrived at */
+	ASSERT(1U <= r.m && r.m <= 12U, "add: month of the result in 1..12");
+	ASSERT(1U <= r.d && (int)r.d <= S_MDAYS(r.y, r.m), "add: day of the result within its month");
+	ASSERT(S_DAYNO(r.y, r.m, r.d) == I_DAYNO(bas) + verif_add_dd, "add: day number of the result == day number of the base + day count");
+	if (I_ALLDAY(bas)) {
+		ASSERT(verif_add_dd == verif_add_dd0, "add(all-day): day count is the whole-day part of the duration");
+		ASSERT(r.H == bas.H && r.M == bas.M && r.S == bas.S && r.ms == bas.ms, "add(all-day): time fields untouched");
+		SENTINEL("add allday");
+	}
+	if (verif_add_dd < -40) {
+		SENTINEL("add walk down");
+	}
+	if (verif_add_dd > 40) {
+		SENTINEL("add walk up");
+	}
+	SENTINEL("add walk");
+}
+
+/* time-of-day part in carry form: msod(bas)+msd0 == carry*86400000+msod(r) */
+void h_C08_add_tod(void)
+{
+	IN_INSTANT_FIELDS(bas);
+	IN_RANGE(int64_t, dur, -ADD_LIM, ADD_LIM);
+	ASSUME(I_VALID(bas) && I_TIMED(bas));
+	echs_idiff_t add = {dur};
+	echs_instant_t r = echs_instant_add(bas, add);
+	int carry = verif_add_dd - verif_add_dd0;
+	ASSERT(I_VALID_TIME(r) && I_TIMED(r), "add: time of day of the result is valid");
+	ASSERT(-1 <= carry && carry <= 1, "add: the time of day carries at most one day either way");
+	/* ms digit: (bas.ms + msd0) == c1*1000 + r.ms */
+	int t0 = (int)bas.ms + verif_add_msd0;
+	int c1 = (t0 - (int)r.ms) / 1000;
+	ASSERT(t0 - (int)r.ms == c1 * 1000, "add: ms digit and carry");
+	int t1 = (int)bas.S + c1;
+	int c2 = (t1 - (int)r.S) / 60;
+	ASSERT(t1 - (int)r.S == c2 * 60, "add: seconds digit and carry");
+	int t2 = (int)bas.M + c2;
+	int c3 = (t2 - (int)r.M) / 60;
+	ASSERT(t2 - (int)r.M == c3 * 60, "add: minutes digit and carry");
+	int t3 = (int)bas.H + c3;
+	ASSERT(t3 - (int)r.H == carry * 24, "add: hours digit and day carry");
+	SENTINEL("add tod");
 }
